@@ -459,6 +459,11 @@ var c03HostileSDL = []string{
 	"type Query { a(x: In = {a: {a: {a: 1}}}): Int } input In { a: In }",
 	"scalar S @d directive @d on SCALAR",
 	"type Query { a: Int @deprecated(reason: 1) }",
+	// directive uses whose argument values are lists, objects, nulls, of the declared kind or not
+	"type Query @d(l: [1, 2]) { a: Int } directive @d(l: [Int]) on OBJECT",
+	"type Query @d(o: {k: [1]}) { a: Int @d(l: [[1]], o: {k: 1}) } directive @d(l: [Int] o: In) on OBJECT | FIELD_DEFINITION input In { k: [Int] }",
+	"enum E @d(l: {a: 1}, o: [1]) { A @d(l: null) } directive @d(l: [Int] o: In) on ENUM | ENUM_VALUE input In { k: Int }",
+	"type Query { a(x: Int @d(l: [A, \"s\", 1.5, true, $v])): Int } directive @d(l: [Int]) on ARGUMENT_DEFINITION",
 }
 
 // C03_sdl_adversarial: well-formed but hostile schema documents (directive
